@@ -6,7 +6,7 @@
    recorded in known_findings.json, whose witness is kept below as a regression example.) *)
 From Coq Require Import List ZArith Bool.
 Import ListNotations.
-From LC Require Import Base Tree Fp Lookup Api ApiStep TreeFacts ApiFacts Inv InvFacts.
+From LC Require Import Base Tree Fp Lookup Api ApiStep TreeFacts ApiFacts Inv InvFacts ParseWrite StructFacts.
 Local Open Scope Z_scope.
 
 Theorem C04_init : Inv cfg_init.
@@ -74,3 +74,13 @@ Example ex_array_add_rejected :
 Proof. reflexivity. Qed.
 Example ex_final_wf : wf (c_root (run_ops cfg_init ex_ops)) = true.
 Proof. reflexivity. Qed.
+
+(* ---- the invariant delivers the shape hypothesis of the round trip (C01) and of the canonical parse (C02):
+   homogeneous arrays of scalars, members with valid pairwise distinct names, at every level ---- *)
+Theorem C04_gives_parse_shape : forall s, wf s = true -> pstruct s.
+Proof. exact wf_pstruct. Qed.
+Print Assumptions C04_gives_parse_shape.
+
+Theorem C04_reachable_parse_shape : forall ops, in_contract_all cfg_init ops -> pstruct (c_root (run_ops cfg_init ops)).
+Proof. exact reachable_pstruct. Qed.
+Print Assumptions C04_reachable_parse_shape.
